@@ -1,4 +1,230 @@
-(** C13 — temporary stub, replaced below in this session *)
-From CG3 Require Import Lib.PyZ Lib.Chars Model.DataStore.
-Theorem stub_tmp : ds_reopen (ds_new [] MW) MW = ds_new [] MW.
-Proof. exact (eq_refl _). Qed.
+(** C13 — Data stores hold exactly what was written, record by record.
+    Only theorem statements; every proof is [exact <lemma>].
+
+    Objects:
+      [Model.DataStore] / [Model.SqlStore]   the two stores, transcribed from the code, with one
+                                            boolean per proposed patch ([variant]); [pinned] is the
+                                            code as found, [repaired] the code with the six patches
+                                            notes/proposed_fixes/C13-1..6.diff
+      [Spec.DataStoreSpec]                  the dictionary: two tables name -> content, [sp_step]
+      [dir_obs_match] / [sql_obs_match]     what a client sees (member listings after the lazy
+                                            cache refresh, content and checksum of every member)
+                                            equals the dictionary
+    Histories are arbitrary lists of operations (write, write_not_completed, write_log,
+    drop_not_completed(id), drop_not_completed(), close + re-open in a mode), run from a new store
+    with [fold_left]; every prefix of a history is a history, a freshly re-opened store is the
+    history followed by [OReopen]. *)
+From Coq Require Import ZArith List Bool.
+From CG3 Require Import Lib.PyZ Lib.Chars Model.DataStore Model.SqlStore Spec.DataStoreSpec.
+From CG3 Require Import Proofs.SqlStoreProofs Proofs.DataStoreProofs Proofs.DataStoreNames.
+Import ListNotations.
+
+(** ---------------------------------------------------------------- directory store *)
+
+(** After ANY history of operations on well-formed identifiers in which no
+    not-completed record is written over a completed one, the (repaired)
+    directory store shows exactly the dictionary: same completed / not-completed
+    membership (no duplicates, caches in step with the disk), same content and
+    same checksum for every member, same mode. *)
+Theorem dir_refines_dict : forall sfx m ops,
+  wf_sfx sfx = true -> forallb (dir_wf_op sfx) ops = true ->
+  no_nc_over_completed dir_policy (d_new m) (map (dir_aop sfx) ops) = true ->
+  dir_obs_match sfx (ds_run (ds_new sfx m) ops) (sp_run dir_policy (d_new m) (map (dir_aop sfx) ops)).
+Proof. exact dir_refines_dict_all. Qed.
+
+(** the same for a purely syntactic class of identifiers: the store suffix is a non-empty
+    lower-case string without '.' and '/', not a compression suffix and not "log"; every
+    identifier is a non-empty string without '.' and '/', optionally followed by ".<suffix>"
+    (so: names that are suffixes / prefixes of one another, names containing the suffix text,
+    with and without the format suffix) *)
+Theorem dir_refines_dict_plain_ids : forall sfx m ops,
+  plain_sfx sfx = true -> forallb (plain_dir_op sfx) ops = true ->
+  no_nc_over_completed dir_policy (d_new m) (map (dir_aop sfx) ops) = true ->
+  dir_obs_match sfx (ds_run (ds_new sfx m) ops) (sp_run dir_policy (d_new m) (map (dir_aop sfx) ops)).
+Proof. exact dir_refines_dict_plain. Qed.
+
+Theorem plain_ids_example :
+  plain_sfx s_fasta = true /\
+  forallb (plain_did s_fasta) [[97]; [98;97]; [97;98]; [97;46;102;97;115;116;97]; [102;97;115;116;97;95;97];
+                               [102;97;115;116;97]; [83;69;81;45;49]] = true.
+Proof. exact plain_example. Qed.
+
+(** the hypotheses are satisfiable by identifiers that are suffixes and prefixes
+    of one another, with and without the format suffix, and by identifiers that
+    contain the suffix text *)
+Theorem separated_example :
+  wf_sfx s_fasta = true /\
+  forallb (wf_id s_fasta) [[97]; [98;97]; [97;98]; [97;46;102;97;115;116;97]; [97;98;46;102;97;115;116;97];
+                          [102;97;115;116;97;95;97]; [106;115;111;110;95;97];
+                          [102;97;115;116;97;95;115;101;113;46;102;97;115;116;97]; [99;49]; [120;95;121;45;122]] = true.
+Proof. exact dir_wf_example. Qed.
+
+(** ... and by EVERY non-empty identifier of a completely enumerated scope: length <= 5 over
+    {a,b,f,s,t,j,_,1} (includes "fasta", "fast", "a_b"), length <= 4 over {a,j,s,o,n,t,x}
+    (includes "json", "txt"), each with and without ".fasta" appended (37448 + 2800 words) *)
+Theorem separated_small_scope : forall w,
+  In w (nonempty_words alpha1 5) \/ In w (nonempty_words alpha2 4) ->
+  wf_id s_fasta w = true /\ wf_id s_fasta (w ++ ch_dot :: s_fasta) = true.
+Proof. exact wf_small_scope. Qed.
+
+Theorem history_example :
+  forallb (dir_wf_op s_fasta) example_history = true /\
+  no_nc_over_completed dir_policy (d_new MW) (map (dir_aop s_fasta) example_history) = true.
+Proof. exact dir_hist_example. Qed.
+
+(** the statement of [dir_refines_dict] about the code AS FOUND ([pinned]) — it is false: *)
+Definition stmt_dir_refines_dict_pinned : Prop := forall sfx m ops,
+  wf_sfx sfx = true -> forallb (dir_wf_op sfx) ops = true ->
+  no_nc_over_completed dir_policy (d_new m) (map (dir_aop sfx) ops) = true ->
+  dir_obs_match sfx (ds_runv pinned (ds_new sfx m) ops) (sp_run dir_policy (d_new m) (map (dir_aop sfx) ops)).
+
+Theorem dir_refines_dict_pinned_refuted : ~ stmt_dir_refines_dict_pinned.
+Proof. exact pinned_statement_false. Qed.
+
+(** the code as found violates the unguarded statement, once per missing patch *)
+
+(** write('a') deletes the not-completed record 'ba' (drop by [endswith]) *)
+Theorem unseparated_refuted :
+  exists ops, forallb (dir_wf_op s_fasta) ops = true /\
+    let s := ds_runv (only 1) (ds_new s_fasta MW) ops in
+    let d := sp_run dir_policy (d_new MW) (map (dir_aop s_fasta) ops) in
+    dn d [98;97] = Some [100;48] /\ nc_ids s = [].
+Proof. exact dir_endswith_refuted. Qed.
+
+(** identifier containing the suffix text: checksum file under another name; record under another name *)
+Theorem suffix_text_refuted :
+  (exists ops, forallb (dir_wf_op s_fasta) ops = true /\
+    let s := ds_runv (only 2) (ds_new s_fasta MW) ops in
+    let d := sp_run dir_policy (d_new MW) (map (dir_aop s_fasta) ops) in
+    dc d [102;97;115;116;97;95;115;101;113] = Some [100;48] /\
+    c_ids s = [[102;97;115;116;97;95;115;101;113;46;102;97;115;116;97]] /\
+    ds_md5 s [102;97;115;116;97;95;115;101;113;46;102;97;115;116;97] = None) /\
+  (exists ops, forallb (dir_wf_op s_fasta) ops = true /\
+    let s := ds_runv (only 2) (ds_new s_fasta MW) ops in
+    let d := sp_run dir_policy (d_new MW) (map (dir_aop s_fasta) ops) in
+    dn d [102;97;115;116;97;95;97] = Some [100;48] /\
+    nc_ids s = [[110;111;116;95;99;111;109;112;108;101;116;101;100;47;106;115;111;110;95;97;46;106;115;111;110]]).
+Proof. exact dir_suffix_text_refuted. Qed.
+
+(** completing a record that failed before deletes the checksum just written *)
+Theorem write_over_not_completed_refuted :
+  exists ops, forallb (dir_wf_op s_fasta) ops = true /\
+    no_nc_over_completed dir_policy (d_new MW) (map (dir_aop s_fasta) ops) = true /\
+    let s := ds_runv (only 3) (ds_new s_fasta MW) ops in
+    let d := sp_run dir_policy (d_new MW) (map (dir_aop s_fasta) ops) in
+    dc d [97] = Some [100;49] /\ ds_read s [97;46;102;97;115;116;97] = Some [100;49] /\
+    ds_md5 s [97;46;102;97;115;116;97] = None.
+Proof. exact dir_write_over_nc_refuted. Qed.
+
+(** a read-only directory store deletes records *)
+Theorem readonly_drop_refuted :
+  exists ops, forallb (dir_wf_op s_fasta) ops = true /\
+    let s := ds_runv (only 4) (ds_new s_fasta MW) ops in
+    let d := sp_run dir_policy (d_new MW) (map (dir_aop s_fasta) ops) in
+    dm d = MR /\ dn d [97] = Some [100;48] /\ nc_ids s = [].
+Proof. exact dir_readonly_drop_refuted. Qed.
+
+(** overwrite mode silently keeps the old content *)
+Theorem overwrite_ignored_refuted :
+  exists ops, forallb (dir_wf_op s_fasta) ops = true /\
+    let s := ds_runv (only 5) (ds_new s_fasta MW) ops in
+    let d := sp_run dir_policy (d_new MW) (map (dir_aop s_fasta) ops) in
+    dc d [97] = Some [100;49] /\ ds_read s [97;46;102;97;115;116;97] = Some [100;48].
+Proof. exact dir_presence_refuted. Qed.
+
+(** a second not-completed write of the same name lists the member twice *)
+Theorem duplicate_member_refuted :
+  exists ops, forallb (dir_wf_op s_fasta) ops = true /\
+    nc_ids (ds_runv (only 5) (ds_new s_fasta MW) ops)
+    = [[110;111;116;95;99;111;109;112;108;101;116;101;100;47;97;46;106;115;111;110];
+       [110;111;116;95;99;111;109;112;108;101;116;101;100;47;97;46;106;115;111;110]].
+Proof. exact dir_duplicate_member_refuted. Qed.
+
+(** even with every patch the two hypotheses of [dir_refines_dict] are necessary *)
+Theorem nc_over_completed_refuted :
+  exists ops, forallb (dir_wf_op s_fasta) ops = true /\
+    let s := ds_runv repaired (ds_new s_fasta MW) ops in
+    let d := sp_run dir_policy (d_new MW) (map (dir_aop s_fasta) ops) in
+    dc d [97] = Some [100;48] /\ ds_read s [97;46;102;97;115;116;97] = Some [100;48] /\
+    ds_md5 s [97;46;102;97;115;116;97] = Some [100;49].
+Proof. exact dir_nc_over_completed_refuted. Qed.
+
+Theorem dotted_ids_refuted :
+  exists ops,
+    let s := ds_runv repaired (ds_new s_fasta MW) ops in
+    let d := sp_run dir_policy (d_new MW) (map (dir_aop s_fasta) ops) in
+    dc d [103;46;118;49] = Some [100;48] /\ dc d [103;46;118;50] = Some [100;49] /\
+    c_ids s = [[103;46;102;97;115;116;97]].
+Proof. exact dir_dotted_ids_refuted. Qed.
+
+(** the three sentences about single operations, on the directory store itself:
+    before and after any further operation [o] the store shows the dictionaries
+    [d] and [d'], and
+    - a record named by no argument of [o] is the same in [d] and [d'],
+    - in append mode a completed record keeps its content,
+    - in read-only mode nothing changes. *)
+Theorem dir_single_operation_facts : forall sfx m ops o,
+  wf_sfx sfx = true -> forallb (dir_wf_op sfx) (ops ++ [o]) = true ->
+  no_nc_over_completed dir_policy (d_new m) (map (dir_aop sfx) (ops ++ [o])) = true ->
+  let d := sp_run dir_policy (d_new m) (map (dir_aop sfx) ops) in
+  let d' := sp_step dir_policy d (dir_aop sfx o) in
+  dir_obs_match sfx (ds_run (ds_new sfx m) ops) d /\
+  dir_obs_match sfx (ds_run (ds_new sfx m) (ops ++ [o])) d' /\
+  (forall x, ~ In x (names_of (dir_aop sfx o)) ->
+     dc d' x = dc d x /\ (dir_aop sfx o <> ADropAll -> dn d' x = dn d x)) /\
+  (dm d = MA -> (forall m', o <> OReopen m') -> forall x v, dc d x = Some v -> dc d' x = Some v) /\
+  (dm d = MR -> (forall m', o <> OReopen m') -> d' = d).
+Proof. exact dir_store_step_facts. Qed.
+
+(** ---------------------------------------------------------------- sqlite store *)
+
+(** After ANY history of well-formed operations the sqlite store (with patch
+    C13-6) shows exactly the dictionary. *)
+Theorem sql_refines_dict : forall v m ops,
+  v_sqlupd v = true -> forallb sql_wf_op ops = true ->
+  sql_obs_match (sq_run v (sq_new m) ops) (sp_run sql_policy (d_new m) (map sql_aop ops)).
+Proof. exact sql_refines_dict_all. Qed.
+
+(** a syntactic class of well-formed histories: every identifier non-empty and without '/' *)
+Theorem sql_refines_dict_plain_ids : forall v m ops,
+  v_sqlupd v = true -> forallb plain_op ops = true ->
+  sql_obs_match (sq_run v (sq_new m) ops) (sp_run sql_policy (d_new m) (map sql_aop ops)).
+Proof. exact sql_refines_dict_plain. Qed.
+
+Theorem sql_wf_nonvacuous :
+  forallb sql_wf_op
+    [OWriteNC [98;97] [100]; OWrite [97] [101]; OWrite (s_results_slash ++ [98;97]) [102];
+     ODrop [97]; OReopen MA; OWriteNC [97;46;102;97;115;116;97] [103]; ODropAll; OWriteLog [108] [104]] = true.
+Proof. exact sql_wf_example. Qed.
+
+(** the code as found: write(a); write_not_completed(a) in overwrite mode updates
+    the data and leaves the record listed as completed *)
+Theorem sql_phantom_completed_refuted :
+  exists ops, forallb sql_wf_op ops = true /\
+    let s := sq_run pinned (sq_new MW) ops in
+    let d := sp_run sql_policy (d_new MW) (map sql_aop ops) in
+    dn d [97] = Some [101] /\ snd (sq_nc_prop (fst (sq_completed_prop s))) = [].
+Proof. exact sql_pinned_refuted. Qed.
+
+(** ---------------------------------------------------------------- the dictionary itself *)
+
+(** An operation on one name never changes another record (only drop-all touches
+    other not-completed records) *)
+Theorem others_untouched : forall p s o x,
+  ~ In x (names_of o) ->
+  dc (sp_step p s o) x = dc s x /\ (o <> ADropAll -> dn (sp_step p s o) x = dn s x).
+Proof. exact sp_others_untouched. Qed.
+
+(** append mode never overwrites a completed record; a not-completed record can only be
+    completed, dropped, or (directory store policy) replaced by the not-completed record of a re-run *)
+Theorem append_never_overwrites : forall p s o x v,
+  dm s = MA -> (forall m, o <> AReopen m) ->
+  (dc s x = Some v -> dc (sp_step p s o) x = Some v) /\
+  (dn s x = Some v -> dn (sp_step p s o) x = Some v \/ (exists d, o = AWrite x d) \/ o = ADrop x \/ o = ADropAll
+                      \/ (append_rewrites_nc p = true /\ exists d, o = AWriteNC x d)).
+Proof. exact sp_append_never_overwrites. Qed.
+
+(** read-only mode never mutates *)
+Theorem readonly_never_mutates : forall p s o,
+  dm s = MR -> (forall m, o <> AReopen m) -> sp_step p s o = s.
+Proof. exact sp_readonly_never_mutates. Qed.
